@@ -41,6 +41,10 @@ FailS(clause, err, tol) == <<[clause |-> clause, err |-> err, tol |-> tol]>>
 Chk(clause, ok, err, tol) == IF ok THEN <<>> ELSE Fail(clause, err, tol)
 NonFinite(clause) == FailS(clause, "non-finite", "finite")
 Tool(what, detail) == FailS("TOOL." \o what, detail, "")
+\* the harness runs every call in a child process; status # 0: the call did not return normally
+\* (1000 + signal number, or the exit code of a sanitizer abort / uncaught exception)
+NoReturn(clause, e) ==
+  FailS(clause \o ".returns", "the call did not return normally (wait status " \o ToString(e.status) \o ")", "returns")
 
 \* the property's tolerance for "meets its constraints": 1e-6 relative
 Tol6 == Dec(1, -6)
@@ -130,7 +134,7 @@ Fit1dDomain(e) ==
   IN IF ~SpecKnown(s) THEN Tool("domain", "spec")
      ELSE IF ~(FinV(e.dt) /\ FinV(e.dx) /\ FinV(e.lv) /\ FinV(e.rv)) THEN Tool("domain", "non-finite input")
      ELSE LET dt == V(e.dt)  N == Len(dt)
-          IN IF ~(N \in 1..39 /\ Len(e.dx) = N /\ Len(e.x) = (SpecK(s) + 1) * N) THEN Tool("domain", "sizes")
+          IN IF ~(N \in 1..39 /\ Len(e.dx) = N) THEN Tool("domain", "sizes")
              ELSE IF ~DtDomain(dt, SpecRatio(s)) THEN Tool("domain", "sampling intervals")
              ELSE IF ~(Len(e.lv) = Len(SpecLeft(s)) /\ Len(e.rv) = Len(SpecRght(s)) /\ AllZero(V(e.lv)) /\ AllZero(V(e.rv)))
                   THEN Tool("domain", "boundary values")
@@ -165,7 +169,11 @@ TFit1d(e) ==
 CFit1d(e) ==
   LET dom == Fit1dDomain(e)
       str == IF Len(dom) > 0 THEN "-" ELSE SpecName(e.spec) \o "|" \o DtClass(V(e.dt)) \o "|" \o RatioClass(V(e.dt))
-  IN [bad |-> IF Len(dom) > 0 THEN dom ELSE IF ~FinV(e.x) THEN NonFinite("C14.lin.interp") ELSE TFit1d(e),
+  IN [bad |-> IF Len(dom) > 0 THEN dom
+              ELSE IF e.status # 0 THEN NoReturn("C14.lin", e)
+              ELSE IF Len(e.x) # (SpecK(e.spec) + 1) * Len(e.dt)
+                   THEN FailS("C14.lin.size", "returned vector has " \o ToString(Len(e.x)) \o " entries", "(K+1) N")
+              ELSE IF ~FinV(e.x) THEN NonFinite("C14.lin.interp") ELSE TFit1d(e),
       stratum |-> str, keys |-> <<"fit1d|" \o str>>,
       info |-> IF Len(dom) > 0 THEN [spec |-> "-"] ELSE [spec |-> SpecName(e.spec), dtc |-> DtClass(V(e.dt)), rc |-> RatioClass(V(e.dt))]]
 
@@ -185,8 +193,7 @@ FitDomain(e) ==
   IN IF ~(SpecKnown(s) /\ GroupKnown(g)) THEN Tool("domain", "spec/group")
      ELSE IF ~(FinV(e.t) /\ FinVV(e.gs) /\ FinVV(e.d) /\ FinV(e.lv) /\ FinV(e.rv)) THEN Tool("domain", "non-finite input")
      ELSE LET t == V(e.t)  N == Len(t)  dt == Diffs(t)
-          IN IF ~(N \in 2..40 /\ Len(e.gs) = N /\ Len(e.d) = N - 1 /\ Len(e.pv) = N /\ Len(e.cv) = N /\ Len(e.sv) = N
-                  /\ Len(e.pw) = N /\ Len(e.cw) = N /\ Len(e.sw) = N) THEN Tool("domain", "sizes")
+          IN IF ~(N \in 2..40 /\ Len(e.gs) = N /\ Len(e.d) = N - 1) THEN Tool("domain", "sizes")
              ELSE IF ~DtDomain(dt, SpecRatio(s)) THEN Tool("domain", "sampling intervals")
              ELSE IF ~(AllZero(V(e.lv)) /\ AllZero(V(e.rv))) THEN Tool("domain", "boundary values")
              ELSE IF ~(\A i \in 1..N : Len(e.gs[i]) = RepSize(g) /\ UnitOk(g, V(e.gs[i]))) THEN Tool("domain", "data not on the group")
@@ -236,8 +243,13 @@ CFit(e) ==
   LET dom == FitDomain(e)
       str == IF Len(dom) > 0 THEN "-"
              ELSE e.g.k \o "|" \o SpecName(e.spec) \o "|" \o DtClass(Diffs(V(e.t))) \o "|" \o RatioClass(Diffs(V(e.t)))
+      N == Len(e.t)
+      sizes == Len(e.pv) = N /\ Len(e.cv) = N /\ Len(e.sv) = N /\ Len(e.pw) = N /\ Len(e.cw) = N /\ Len(e.sw) = N
       fin == FinVV(e.pv) /\ FinVV(e.cv) /\ FinVV(e.sv) /\ FinVV(e.pw) /\ FinVV(e.cw) /\ FinVV(e.sw) /\ FinQ(e.tmax)
-  IN [bad |-> IF Len(dom) > 0 THEN dom ELSE IF ~fin THEN NonFinite("C14.interp") ELSE TFit(e),
+  IN [bad |-> IF Len(dom) > 0 THEN dom
+              ELSE IF e.status # 0 THEN NoReturn("C14.interp", e)
+              ELSE IF ~sizes THEN Tool("samples", "sizes")
+              ELSE IF ~fin THEN NonFinite("C14.interp") ELSE TFit(e),
       stratum |-> str, keys |-> <<"fit|" \o str>>,
       info |-> IF Len(dom) > 0 THEN [spec |-> "-"]
                ELSE [spec |-> SpecName(e.spec), dtc |-> DtClass(Diffs(V(e.t))), rc |-> RatioClass(Diffs(V(e.t))), grp |-> e.g.k]]
@@ -251,8 +263,7 @@ BsplineDomain(e) ==
        IN IF ~(N \in 2..40 /\ RSign(Q(e.dt)) > 0 /\ \A i \in 1..(N - 1) : RLt(t[i], t[i + 1])) THEN Tool("domain", "time stamps")
           ELSE <<>>
 TBspline(e) ==
-  IF e.status # 0
-  THEN FailS("C14.bspline.returns", "the call did not return normally (wait status " \o ToString(e.status) \o ")", "returns a BSpline")
+  IF e.status # 0 THEN NoReturn("C14.bspline", e)
   ELSE IF ~(FinQ(e.tmin) /\ FinQ(e.tmax)) THEN NonFinite("C14.bspline")
   ELSE LET t == V(e.t)  N == Len(t)  lo == Q(e.tmin)  hi == Q(e.tmax)
            sl == RMul(RPow2(-49), RMax(R1, RMax(RAbs(t[1]), RAbs(t[N]))))
@@ -287,7 +298,9 @@ SumV(v, k) == IF k = 0 THEN R0 ELSE RAdd(v[k], SumV(v, k - 1))
 DubinsDomain(e) ==
   IF ~(FinV(e.target) /\ FinQ(e.R)) THEN Tool("domain", "non-finite input")
   ELSE IF ~(RSign(Q(e.R)) > 0 /\ Len(e.target) = 4 /\ UnitOk(SE2, V(e.target))) THEN Tool("domain", "target / radius")
-  ELSE IF ~(FinV(e.knots) /\ FinV(e.ts)) THEN <<>>       \* judged below as a non-finite result
+  ELSE <<>>
+DubinsSamples(e) ==
+  IF ~(FinV(e.knots) /\ FinV(e.ts)) THEN <<>>       \* judged below as a non-finite result
   ELSE LET kn == V(e.knots)  ts == V(e.ts)  np == Len(kn) - 1
        IN IF ~(np = e.size /\ Len(e.ki) = np + 1 /\ Len(e.vals) = Len(ts) /\ Len(e.vels) = Len(ts)
                /\ (\A j \in 1..(np + 1) : e.ki[j] \in 1..Len(ts) /\ REq(ts[e.ki[j]], kn[j]))
@@ -356,15 +369,19 @@ DubinsCandKeys(e) ==
           IN <<"dubins.cand|best." \o (IF ver THEN "verified" ELSE "rejected") \o "|" \o rel>>
 
 CDubins(e) ==
-  LET dom == DubinsDomain(e)
-      fin == FinV(e.knots) /\ FinV(e.ts) /\ FinVV(e.vals) /\ FinVV(e.vels) /\ FinQ(e.tmax) /\ FinV(e.start) /\ FinV(e.end)
+  LET dom0 == DubinsDomain(e)
+      ret == Len(dom0) = 0 /\ e.status = 0
+      dom == IF ret THEN DubinsSamples(e) ELSE dom0
+      fin == ret /\ FinV(e.knots) /\ FinV(e.ts) /\ FinVV(e.vals) /\ FinVV(e.vels) /\ FinQ(e.tmax) /\ FinV(e.start) /\ FinV(e.end)
       judged == Len(dom) = 0 /\ fin
       word == IF ~judged THEN "-"
               ELSE LET np == Len(e.knots) - 1  vels == VV(e.vels)
                    IN IF np = 0 THEN "empty" ELSE Word(Mk(np, LAMBDA j : vels[e.ki[j]][3]), 1)
       rcl == IF ~judged THEN "-" ELSE LET R == Q(e.R) IN IF RLt(R, R1) THEN "R<1" ELSE IF RLeq(R, R1) THEN "R=1" ELSE "R>1"
       str == "K" \o ToString(e.K) \o "|" \o word \o "|" \o rcl
-  IN [bad |-> IF Len(dom) > 0 THEN dom ELSE IF ~fin THEN NonFinite("C14.dubins.path.finite") ELSE TDubins(e),
+  IN [bad |-> IF Len(dom) > 0 THEN dom
+              ELSE IF e.status # 0 THEN NoReturn("C14.dubins.path", e)
+              ELSE IF ~fin THEN NonFinite("C14.dubins.path.finite") ELSE TDubins(e),
       stratum |-> str,
       keys |-> <<"dubins|" \o str>> \o (IF judged THEN DubinsCandKeys(e) ELSE <<>>),
       info |-> [spec |-> "-", K |-> e.K]]
@@ -413,18 +430,21 @@ TReparam(e) ==
 
 CReparam(e) ==
   LET dom == ReparamDomain(e)
-      fin == FinQ(e.T) /\ FinV(e.ts) /\ FinV(e.s) /\ FinV(e.ds) /\ FinV(e.dds) /\ FinQ(e.past) /\ FinV(e.knots)
+      ret == Len(dom) = 0 /\ e.status = 0
+      fin == ret /\ FinQ(e.T) /\ FinV(e.ts) /\ FinV(e.s) /\ FinV(e.ds) /\ FinV(e.dds) /\ FinQ(e.past) /\ FinV(e.knots)
       str == IF Len(dom) > 0 THEN "-"
              ELSE (IF AllZero(V(e.w0)) /\ AllZero(V(e.a0)) THEN "still" ELSE "moving")
                   \o "|" \o (IF RSign(Q(e.sv)) = 0 THEN "sv=0" ELSE "sv>0")
                   \o "|" \o (IF e.ev[4] = 100001 THEN "ev=inf" ELSE IF RSign(Q(e.ev)) = 0 THEN "ev=0" ELSE "ev>0")
       \* information only (not a verdict): does s jump upwards by more than 1e-6 (t_max - t_min) at an inner knot?
       \* The property's "onto" is read as s(0) = t_min and s(T) = t_max, see tools/notes_C14.md.
-      jump == IF Len(dom) > 0 \/ ~fin THEN "-"
+      jump == IF ~fin THEN "-"
               ELSE LET sx == V(e.s)  np == Len(e.knots) - 1
                        js == Mk(np - 1, LAMBDA q : LET i == e.ki[q + 1] IN IF i > 1 THEN PosPart(RSub(sx[i], sx[i - 1])) ELSE R0)
                    IN IF RLeq(VMax0(js), RMul(Tol6, RMax(R1, RSub(Q(e.sf), Q(e.s0))))) THEN "none" ELSE "some"
-  IN [bad |-> IF Len(dom) > 0 THEN dom ELSE IF ~fin THEN NonFinite("C14.reparam.finite") ELSE TReparam(e),
+  IN [bad |-> IF Len(dom) > 0 THEN dom
+              ELSE IF e.status # 0 THEN NoReturn("C14.reparam", e)
+              ELSE IF ~fin THEN NonFinite("C14.reparam.finite") ELSE TReparam(e),
       stratum |-> str, keys |-> <<"reparam|" \o str, "reparam.input|" \o e.kind, "reparam.innerjump|" \o jump>>,
       info |-> [spec |-> "-", kind |-> e.kind]]
 
